@@ -39,6 +39,29 @@ func checkC04(r *Run) {
 			}
 		}
 	}
+	// a validator enters StakeValidator with no recorded stake: new validators are created with zero tokens
+	// (re-staking validators are Unstaked, and both ways of becoming Unstaked remove the whole recorded stake)
+	if f := r.fn("x/pos.stakeNewValidator"); f != nil {
+		if c := r.oneCall("C04-R1", "stakeNewValidator", f, "x/pos/types.NewValidator"); c != nil {
+			got := argTerm(P.callTerm(c), 2).String()
+			r.Check(got == "types.ZeroInt()", "C04-R1", "stakeNewValidator/new-record-has-zero-stake", P.InstrPos(c), "NewValidator(…, ZeroInt())",
+				"the new validator record is created with StakedTokens = "+got+" and StakeValidator then adds the staked amount on top: the record would exceed what is moved into the pool ; required types.ZeroInt()")
+		}
+	}
+	for _, fn := range []string{"FinishUnstakingValidator", "ForceValidatorUnstake"} {
+		if f := r.fn(posK + fn); f != nil {
+			// status 0 (Unstaked) is assigned to a record whose whole stake was removed
+			for _, c := range CallsIn(f, vT+"UpdateStatus") {
+				t := P.callTerm(c)
+				if argTerm(t, 1).String() != "0" {
+					continue
+				}
+				recv := argTerm(t, 0).String()
+				ok := strings.HasPrefix(recv, vT+"RemoveStakedTokens(param:validator, ") && (strings.HasSuffix(recv, "param:validator.StakedTokens)") || strings.HasSuffix(recv, "types.NewInt((types.Int).Int64(param:validator.StakedTokens)))"))
+				r.Check(ok, "C04-R1", fn+"/unstaked-record-has-zero-stake", P.InstrPos(c), "status Unstaked is given to the record with its whole stake removed", "status Unstaked is assigned to "+recv+" which still carries stake")
+			}
+		}
+	}
 	if f := r.fn(posK + "coinsFromUnstakedToStaked"); f != nil {
 		if c := r.oneCall("C04-R1", "coinsFromUnstakedToStaked", f, "x/pos/types.AuthKeeper.SendCoinsFromAccountToModule"); c != nil {
 			t := P.callTerm(c).String()
@@ -108,7 +131,9 @@ func checkC04(r *Run) {
 			rt := P.callTerm(rm)
 			ok := a == "param:validator.StakedTokens" && argTerm(rt, 0).String() == "param:validator" && argTerm(rt, 1).String() == "param:validator.StakedTokens"
 			r.Check(ok, "C04-R1", "ForceValidatorUnstake/burned≡removed", P.InstrPos(bn), "burns and removes validator.StakedTokens of the same (unmodified) validator", "burns "+a+" but removes "+rt.String())
-			r.requireAtoms("C04-R1", "ForceValidatorUnstake/record-change", rm, P.Guards(rm, 0), []req{{"burn-succeeded", `^isnil\(` + q(posK+"burnStakedTokens(param:k, param:ctx, param:validator.StakedTokens)") + `\)$`}})
+			r.requireCut("C04-R1", "ForceValidatorUnstake/record-change", nil, rm, "burn-succeeded-or-nothing-to-burn",
+				`^isnil\(`+q(posK+"burnStakedTokens(param:k, param:ctx, param:validator.StakedTokens)")+`\)$`,
+				`^!\(types\.Int\)\.IsPositive\(param:validator\.StakedTokens\)$`)
 		}
 	}
 	if f := r.fn(posK + "burnStakedTokens"); f != nil {
@@ -163,7 +188,13 @@ func checkC04(r *Run) {
 	}
 	if f := r.fn(posK + "ForceValidatorUnstake"); f != nil {
 		if sv := r.oneCall("C04-R3", "ForceValidatorUnstake", f, posK+"SetValidator"); sv != nil {
-			r.requireAtoms("C04-R3", "ForceValidatorUnstake/SetValidator", sv, P.Guards(sv, 0), []req{{"burn-succeeded", `^isnil\(` + q(posK+"burnStakedTokens(")}})
+			r.requireCut("C04-R3", "ForceValidatorUnstake/SetValidator", nil, sv, "burn-succeeded-or-nothing-to-burn",
+				`^isnil\(`+q(posK+"burnStakedTokens(param:k, param:ctx, param:validator.StakedTokens)")+`\)$`,
+				`^!\(types\.Int\)\.IsPositive\(param:validator\.StakedTokens\)$`)
+			// whenever there is something to burn it is burned: from the IsPositive edge the burn always follows
+			if bn := CallsIn(f, posK+"burnStakedTokens"); len(bn) == 1 {
+				r.mustFollowEdge("C04-R3", "ForceValidatorUnstake/positive-stake=>burned", f, `^\(types\.Int\)\.IsPositive\(param:validator\.StakedTokens\)$`, func(in ssa.Instruction) bool { return in == ssa.Instruction(bn[0]) }, nil, "burnStakedTokens")
+			}
 			for i, ret := range P.successReturns(f, 0, "nil") {
 				r.Check(Precedes(sv, ret), "C04-R3", fmt.Sprintf("ForceValidatorUnstake/success-return#%d/after-SetValidator", i), P.InstrPos(ret), "success only after the record was written", "ForceValidatorUnstake returns success without SetValidator")
 			}
